@@ -992,6 +992,34 @@ def vc_series_defaults(fns, variants, work):
     return res
 
 
+def vc_unsafe_component_table(fns, variants, work):
+    """is_unsafe's closure: a component is dangerous iff it is a Prefix, the root or '..' (std::path::Component's declaration
+    order Prefix, RootDir, CurDir, ParentDir, Normal is the trusted fact behind the discriminant numbers)."""
+    fn = find_fn(fns, r"(^|::)is_unsafe::\{closure#0\}$")
+    found, rets = [], [0]
+    DANGER = {0: True, 1: True, 2: False, 3: True, 4: False}
+
+    def on_return(eng, st, bb):
+        rets[0] += 1
+        r = eng.read_path(st, "_0", "bool")
+        d = eng.read_path(st, "_2#disc", "isize")
+        if not z3.is_bool(r):
+            found.append({"bb": bb, "stmt": "return", "what": "result is not a function of the component kind", "model": {}, "trace": list(st.trace[-10:])})
+            return
+        for k, want in DANGER.items():
+            c = z3.And(d == k, r != z3.BoolVal(want))
+            ok, model = eng.feasible(st, [c])
+            eng.record_query("%s kind %d" % (bb, k), list(st.pc) + [c])
+            if ok:
+                found.append({"bb": bb, "stmt": "return", "what": "component kind %d (%s) is classified %s" % (k, ["Prefix", "RootDir", "CurDir", "ParentDir", "Normal"][k],
+                              "safe" if want else "dangerous"), "model": {}, "trace": list(st.trace[-10:])})
+
+    eng = Engine(fns, fn, variants, hooks={"on_return": on_return})
+    eng.seeds = {"_0", "_2"}
+    eng.run()
+    return summarize(eng, found, {"returns_reached": rets[0]}, work, "c19t", witness_ok=rets[0] > 0, witness_note="no return reached")
+
+
 def vc_direction_from_series(fns, variants, work):
     """apply_one_file_patch: FilePatch::apply is called with Revert iff the series entry's `reverse` flag is set, and with config.fuzz."""
     fn = find_fn(fns, r"::apply_one_file_patch$")
